@@ -32,6 +32,7 @@ MCInit == /\ prog = Model.prog
 \* flat name of a ground term (pure syntax)
 RECURSIVE FlatG(_)
 FlatG(t) == IF Has(t, "i") THEN IntV(t.i)
+            ELSE IF Has(t, "set") THEN SetV({t.set[k] : k \in 1 .. Len(t.set)})
             ELSE <<t.f>> \o FlatCat([k \in 1 .. Len(t.a) |-> FlatG(t.a[k])])
 
 Expect(c) ==
@@ -64,6 +65,21 @@ ViewCC == <<rows, active, asserted>>
 
 \* ------------------------------------------------------------------ invariants
 StateConsistent == Consistent(rows)
+
+\* ---- schedule laws (C10): law-related schedules give the same database from every
+\* reachable state; a saturated schedule is a fixpoint and re-running it reports no update
+SchedLaws ==
+  \A i \in 1 .. Len(Model.laws) :
+    LET x == Sched(rows, Model.laws[i][1], active)
+        y == Sched(rows, Model.laws[i][2], active)
+    IN (~x.fail /\ ~y.fail) => x.rows = y.rows
+SatIsFixpoint ==
+  \A i \in 1 .. Len(Model.sats) :
+    LET s == Model.sats[i]
+        x == Sched(rows, [k |-> "sat", b |-> <<s>>], active)
+        again == Sched(x.rows, s, active)
+        sat2 == Sched(x.rows, [k |-> "sat", b |-> <<s>>], active)
+    IN ~x.fail => (again.rows = x.rows /\ ~again.upd /\ sat2.rows = x.rows /\ ~sat2.upd /\ sat2.stop)
 
 \* ---- independent congruence closure over a finite universe of flat terms
 Univ == {Model.univ[i].t : i \in 1 .. Len(Model.univ)}          \* flat terms
